@@ -5,11 +5,13 @@ package main
 
 import (
 	"fmt"
+	"math/big"
 	"sort"
 	"strconv"
 	"strings"
 
 	pb "github.com/xuperchain/xupercore/bcs/ledger/xledger/xldgpb"
+	"github.com/xuperchain/xupercore/kernel/engines/xuperos/miner"
 
 	"xv/chainlib"
 	"xv/xvlib"
@@ -44,14 +46,23 @@ type TxInfo struct {
 	KIn      []KIn
 	KOut     []KOut
 	Prog     string
-	Pad      int  // bytes of padding in Desc (size-limit cases)
-	Built    bool // the real transaction exists
+	Timer    string // "<height>:<prog>": the transaction calls $timer_task.Add (run $xvkv program prog at that height)
+	Autogen  bool   // the timer transaction of a block
+	Pad      int    // bytes of padding in Desc (size-limit cases)
+	Built    bool   // the real transaction exists
 }
 
 type World struct {
 	Fee     bool
-	Award   int64
+	Award   int64 // the configured award (height 0 .. gap-1)
+	Gap     int64 // award_decay.height_gap (0 = no decay)
+	Num     int64 // award_decay.ratio = Num / Den
+	Den     int64
 	MaxMB   int
+	Cons    *scriptCons
+	Net     *captureNet
+	Miner   *miner.Miner
+	Genesis []byte
 	Users   []*xvlib.Account
 	Miners  []*xvlib.Account
 	AddrOf  map[string]string
@@ -62,6 +73,34 @@ type World struct {
 	P, R    *chainlib.Node
 	Keys    []string
 	nodeSeq int
+}
+
+// specAward is the award schedule as the genesis configuration describes it, computed by the harness itself in exact
+// arithmetic: award * ratio^(height / gap), rounded half up; the configured award when there is no decay.
+func (w *World) specAward(height int64) int64 {
+	if w.Gap == 0 {
+		return w.Award
+	}
+	p := height / w.Gap
+	a, d := big.NewInt(w.Award), big.NewInt(1)
+	for i := int64(0); i < p; i++ {
+		a.Mul(a, big.NewInt(w.Num))
+		d.Mul(d, big.NewInt(w.Den))
+	}
+	// round(a / d) = floor((2a + d) / 2d)
+	n := new(big.Int).Add(new(big.Int).Mul(a, big.NewInt(2)), d)
+	n.Div(n, new(big.Int).Mul(d, big.NewInt(2)))
+	return n.Int64()
+}
+
+func (w *World) addKey(k string) {
+	for _, x := range w.Keys {
+		if x == k {
+			return
+		}
+	}
+	w.Keys = append(w.Keys, k)
+	sort.Strings(w.Keys)
 }
 
 func (w *World) bind(t *TxInfo) { w.TxByID[string(t.Tx.Txid)] = t.Idx }
@@ -128,6 +167,9 @@ func (t *TxInfo) defLine(kind string) string {
 	s := fmt.Sprintf("%s %d from=%s", kind, t.Idx, t.From)
 	if t.Prog != "" {
 		s += " prog=" + t.Prog
+	}
+	if t.Timer != "" {
+		s += " timer=" + t.Timer
 	}
 	if t.Pad > 0 {
 		s += fmt.Sprintf(" pad=%d", t.Pad)
